@@ -41,6 +41,9 @@ def record_stream(make_client, settle=0.4):
     return bytes(data)
 
 
+SLOW_MAIN = os.path.join(os.path.dirname(os.path.abspath(__file__)), 'site', 'pwv_slow_main.py')
+
+
 def recorded_streams():
     """the five request kinds of the protocol, as sent by the real client code"""
     from pyworkers.remote import RemoteWorker
@@ -57,6 +60,9 @@ def recorded_streams():
     out = {}
     out['worker'] = record_stream(lambda a: RemoteWorker(TG.f_add, args=[1], host=a, main_path=''))
     out['pworker'] = record_stream(lambda a: PersistentRemoteWorker(TG.t_item, host=a, main_path=''))
+    # a worker whose backend needs a while to start (its __main__ script takes 1.2 s to import): the window between the
+    # control connect and the runtime info is wide open
+    out['worker-slow'] = record_stream(lambda a: RemoteWorker(TG.f_add, args=[1], host=a, main_path=SLOW_MAIN))
     out['ctx-create'] = record_stream(lambda a: RemoteContext(901, host=a, target=TG.t_item))
     r = Rec()
     send_msg(r, (901, False))
